@@ -74,6 +74,11 @@ func (ser *MultiEpoch) getGsfaReadersInEpochDescendingOrderForSlotRange(ctx cont
 			epochNums = append(epochNums, epoch.Epoch())
 		}
 	}
+	if len(gsfaReaders) != len(epochs) {
+		// An epoch of the range has no address index: answering from the indexes of the others
+		// would silently leave its transactions out. Report "no readers" so that the caller scans.
+		return nil, nil
+	}
 
 	gsfaReaderMultiEpoch, err := gsfa.NewGsfaReaderMultiepoch(gsfaReaders)
 	if err != nil {
